@@ -438,12 +438,38 @@ func genC06(t *rapid.T, tier string) (*World, any) {
 		universe["foonnbar"] = true
 		feat["twin-directives"] = true
 	}
+	sameTwice := false
+	if p.Kind == "include-except" && blockF == "" && chance(t, 15, "same-F-twice") {
+		// a second directive on the same include file, with exclusions of its own, in a block of its own
+		var x2 []string
+		ex2 := map[string]bool{}
+		for _, e := range fEntries {
+			if chance(t, 35, "x2pick") {
+				x2 = append(x2, e)
+				ex2[e] = true
+			}
+		}
+		w.Put("crs/regex-assembly/exclude/second.ra", joinLines(x2))
+		mid = append(mid, "##!> assemble", "  zq", "  ##!=>", "  ##!> include-except words second", "##!<")
+		for _, e := range fEntries {
+			universe["zq"+lit(e)] = true
+			if !ex2[e] {
+				p.Expect = append(p.Expect, []string{"zq" + lit(e)})
+			}
+		}
+		universe["zq"] = true
+		if len(x2) > 0 && len(ex2) == len(seenEntry) {
+			p.Expect = append(p.Expect, []string{"zq"}) // everything excluded: the block is its first part alone
+		}
+		sameTwice = true
+		feat["same-include-file-twice"] = true
+	}
 	p.Prog = build(mid)
 	for _, e := range extra {
 		p.Expect = append(p.Expect, []string{e})
 		universe[e] = true
 	}
-	if blockF != "" {
+	if blockF != "" || sameTwice {
 		// membership only: a block inside the include is grouped differently from entries typed in place
 	} else if !feat["duplicate"] && !competing {
 		p.Typed = build(append(append([]string{}, typedWords...), twinTyped...))
